@@ -17,6 +17,11 @@ def main():
   with tempfile.TemporaryDirectory() as d:
     out = os.path.join(d, "junit.xml")
     cmd = base["cmd"].replace("<file>", out)
+    root = os.environ.get("TTCONV_BASELINE_ROOT")
+    if root:
+      # run the same suite in another checkout of the repository (scratch worktrees)
+      cmd = cmd.replace("cd /repo", "cd " + root)
+      env["PYTHONPATH"] = os.path.join(root, "src/main/python")
     p = subprocess.run(cmd, shell=True, env=env, stdout=subprocess.PIPE, stderr=subprocess.STDOUT, text=True)
     tree = et.parse(out)
   passed = set()
